@@ -33,7 +33,7 @@ func helperCallsImpl(cl adapt.Client, r *rand.Rand) {
 			// empty, or with entries for the tables the workloads use (what a test that checks the metrics sets up)
 			m := map[string][]*v1ddb.ItemCollectionMetrics{}
 			if r.Intn(2) == 0 {
-				for _, t := range []string{"tba", "tbb", "tbc", "tbl11"} {
+				for _, t := range []string{"tba", "tbb", "tb.c_2-x", "tbl11"} {
 					if r.Intn(2) == 0 {
 						m[t] = []*v1ddb.ItemCollectionMetrics{{SizeEstimateRangeGB: []*float64{new(float64)}}}
 					}
@@ -54,7 +54,7 @@ func helperCallsImpl(cl adapt.Client, r *rand.Rand) {
 		default:
 			m := map[string][]v2types.ItemCollectionMetrics{}
 			if r.Intn(2) == 0 {
-				for _, t := range []string{"tba", "tbb", "tbc", "tbl11"} {
+				for _, t := range []string{"tba", "tbb", "tb.c_2-x", "tbl11"} {
 					if r.Intn(2) == 0 {
 						m[t] = []v2types.ItemCollectionMetrics{{SizeEstimateRangeGB: []float64{0}}}
 					}
